@@ -150,7 +150,7 @@ pub fn create_number_constructor(interp: &mut Interpreter) -> Gc<JsObject> {
     interp
         .number_prototype
         .borrow_mut()
-        .set_property(constructor_key, JsValue::Object(constructor.clone()));
+        .define_builtin_property(constructor_key, JsValue::Object(constructor.clone()));
 
     constructor
 }
